@@ -218,6 +218,12 @@ pub fn redex_bodies(k: usize) -> Vec<(String, &'static str)> {
             v.push((format!("PUSH({x}) ~ PUSH({y}) ~ PEEK[..]* ~ ANY ~ EOI"), "restore"));
             v.push((format!("PUSH({x}) ~ PUSH({y}) ~ (PEEK[-2..] ~ \"x\" | ANY ~ {y})"), "restore"));
             v.push((format!("PUSH({x}) ~ PUSH({y}) ~ PUSH({x}) ~ (!PEEK_ALL ~ ANY)* ~ PEEK[1..]?"), "restore"));
+            // the same with the popping matchers (a partial POP_ALL / POP must leave position and stack alone)
+            v.push((format!("PUSH({x}) ~ PUSH({y}) ~ (POP_ALL | {y}) ~ ANY?"), "restore"));
+            v.push((format!("PUSH({x}) ~ PUSH({y}) ~ POP_ALL? ~ ANY*"), "restore"));
+            v.push((format!("PUSH({x}) ~ PUSH({y}) ~ POP_ALL* ~ ANY ~ EOI"), "restore"));
+            v.push((format!("PUSH({x}) ~ PUSH({y}) ~ POP? ~ PEEK ~ ANY?"), "restore"));
+            v.push((format!("PUSH({x}) ~ PUSH({y}) ~ (POP | {x}) ~ POP? ~ PEEK_ALL?"), "restore"));
         }
         // unroll
         for (i, rep) in ["{1}", "{2}", "{3}", "{1,}", "{2,}", "{,1}", "{,2}", "{,3}", "{1,1}", "{1,2}", "{1,3}", "{2,3}", "{0,2}", "+"].iter().enumerate() {
@@ -228,7 +234,7 @@ pub fn redex_bodies(k: usize) -> Vec<(String, &'static str)> {
         }
     }
     // skipper (only fires in @ rules; the frame supplies the rule type)
-    let strs = ["\"a\"", "\"b\"", "\"ab\"", "\"\"", "s", "lit"];
+    let strs = ["\"a\"", "\"b\"", "\"ab\"", "\"\"", "s", "lit", "nas"];
     for a in &strs {
         v.push((format!("(!{a} ~ ANY)*"), "skip"));
         v.push((format!("(!({a}) ~ ANY)* ~ {a}"), "skip"));
@@ -254,7 +260,7 @@ pub fn redex_bodies(k: usize) -> Vec<(String, &'static str)> {
 }
 
 /// Extra rules some redex bodies refer to.
-pub const REDEX_EXTRA_RULES: &str = " lit = _{ \"a\" | \"ab\" } lit2 = { \"b\" } ";
+pub const REDEX_EXTRA_RULES: &str = " lit = _{ \"a\" | \"ab\" } lit2 = { \"b\" } nas = !{ \"a\" ~ \"b\" } ";
 
 /// Stack-transaction slice: a push before a choice; inside the first alternative a *successful*
 /// group that pushes again and contains a *successful nested* group popping across both pushes
@@ -313,6 +319,33 @@ pub fn many_rules_bodies(max: usize) -> Vec<String> {
                 }
             }
         }
+    }
+    v
+}
+
+/// Wide families (C08 and friends): the same small shapes at widths that cross typical
+/// capacity / threshold constants (4, 8, 16, 20, 30, 32, 33, 40).
+pub fn wide_grammars() -> Vec<String> {
+    let mut v = vec![];
+    for n in [2usize, 4, 5, 8, 12, 16, 20, 24, 31, 32, 33, 40] {
+        let rules: String = (0..n).map(|i| format!("k{i} = {{ \"{i}\" }} ")).collect();
+        let alts: Vec<String> = (0..n).map(|i| format!("k{i}")).collect();
+        // n distinct rules tried at one position
+        v.push(format!("{rules}r = {{ \"a\"? ~ ({}) ~ EOI }}", alts.join(" | ")));
+        // n alternatives that each retry the same three rules
+        let retry: Vec<String> = (0..n).map(|i| format!("(a | b | c) ~ \"{i}\"")).collect();
+        v.push(format!("a = {{ \"a\" }} b = {{ \"b\" }} c = {{ a ~ b }} z = {{ \"z\" }} r = {{ {} }} top = _{{ z | r }}", retry.join(" | ")));
+        // n rules under negation
+        let negs: Vec<String> = (0..n).map(|i| format!("!k{i}")).collect();
+        v.push(format!("{rules}r = {{ {} ~ \"b\" }}", negs.join(" ~ ")));
+        // nesting depth n
+        let mut nest = String::from("\"a\"");
+        let mut nrules = String::new();
+        for i in 0..n.min(24) {
+            nrules.push_str(&format!("n{i} = {{ {} }} ", if i == 0 { nest.clone() } else { format!("n{} ~ \"b\"?", i - 1) }));
+            nest = format!("n{i}");
+        }
+        v.push(format!("{nrules}r = {{ {nest} ~ \"a\" }}"));
     }
     v
 }
